@@ -1,7 +1,12 @@
 use std::{fs::File, mem, sync::Arc};
 
 use log::{debug, trace};
+#[cfg(not(anydb_verif))]
 use parking_lot::{Mutex, RwLock, RwLockReadGuard, RwLockWriteGuard};
+#[cfg(anydb_verif)]
+use parking_lot::Mutex;
+#[cfg(anydb_verif)]
+use crate::verif::locks::{RwLock, RwLockReadGuard, RwLockWriteGuard};
 
 use crate::{Database, Error, Reader, RegionMetadata, Result, WeakDatabase};
 
@@ -399,11 +404,15 @@ impl Region {
 
     #[inline(always)]
     pub fn meta(&self) -> RwLockReadGuard<'_, RegionMetadata> {
+        #[cfg(anydb_verif)]
+        crate::verif::locks::register_with(&self.0.meta, || format!("meta#{}", self.0.index));
         self.0.meta.read()
     }
 
     #[inline(always)]
     pub(crate) fn meta_mut(&self) -> RwLockWriteGuard<'_, RegionMetadata> {
+        #[cfg(anydb_verif)]
+        crate::verif::locks::register_with(&self.0.meta, || format!("meta#{}", self.0.index));
         self.0.meta.write()
     }
 
